@@ -513,8 +513,86 @@ func checkC14(c *Ctx, n int) {
 		if real.dead {
 			continue
 		}
-		mode := c.Rng.Intn(5)
+		mode := c.Rng.Intn(6)
 		switch mode {
+		case 5: // an unknown section — with entries, or with nothing under its header — is reported as such
+			g.plainIni = true
+			clean := g.genIniText(real, iniProfile{})
+			if clean != "" && !strings.HasSuffix(clean, "\n") {
+				clean += "\n"
+			}
+			header := []string{"[zzNoSuchSection]", "[ zz no such section ]", "[zz.no.such]"}[c.Rng.Intn(3)]
+			shape := c.Rng.Intn(5)
+			var text string
+			switch shape {
+			case 0: // the header is the last line
+				text = clean + header + "\n"
+			case 1: // nothing but comments and blank lines under it
+				text = clean + header + "\n; nothing here\n\n# nor here\n"
+			case 2: // the next header follows at once
+				text = clean + header + "\n[Application Options]\n"
+			case 3: // first thing in the file, empty, the known entries behind another header
+				text = header + "\n[Application Options]\n"
+				if at := strings.Index("\n"+clean, "\n["); at >= 0 {
+					text += clean[:at]
+				} else {
+					text += clean
+				}
+			default: // with entries of its own
+				text = clean + header + "\na = 1\n"
+			}
+			ignore := c.Rng.Intn(3) == 0
+			a, b := *cs, *cs
+			a.Opts &^= flags.IgnoreUnknown
+			b.Opts &^= flags.IgnoreUnknown
+			if ignore {
+				a.Opts |= flags.IgnoreUnknown
+				b.Opts |= flags.IgnoreUnknown
+			}
+			if shape == 3 {
+				a.Ops = []Op{{Kind: "iniparse", Text: strings.TrimPrefix(text, header+"\n")}}
+			} else {
+				a.Ops = []Op{{Kind: "iniparse", Text: clean}}
+			}
+			b.Ops = []Op{{Kind: "iniparse", Text: text}}
+			a.Description, b.Description = describeOps(&a), describeOps(&b)
+			var ra, rb *CaseResult
+			c.RunCases([]*Case{&a, &b}, func(cr *CaseResult) {
+				if ra == nil {
+					ra = cr
+				} else {
+					rb = cr
+				}
+			})
+			if ra == nil || rb == nil {
+				continue
+			}
+			ia, ib := firstLine(ra.Impl, "INI "), firstLine(rb.Impl, "INI ")
+			if iniKind(ia) != "ok" {
+				continue // (the known entries must be acceptable by themselves)
+			}
+			c.Class(fmt.Sprintf("c14/unknown-section shape=%d ignore-unknown=%v", shape, ignore))
+			c.Distinct(b.Description)
+			in := map[string]interface{}{"text": text, "unknown_section_header": header, "ignore_unknown": ignore}
+			ok := true
+			want := "ErrUnknownGroup"
+			if ignore {
+				want = "success and the option values of the text without the section"
+				ok = iniKind(ib) == "ok"
+				va, vb := optionValues(ra.Impl, "INI ", 0), optionValues(rb.Impl, "INI ", 0)
+				for k, v := range va {
+					if vb[k] != v {
+						ok = false
+					}
+				}
+			} else {
+				ws := strings.Fields(ib + " x x x")
+				ok = ws[1] == "flags" && ws[2] == strconv.Itoa(int(flags.ErrUnknownGroup))
+			}
+			if !ok {
+				in["case_file"] = c.saveCase(rb)
+			}
+			c.Check("unknown-section-is-reported", ok, "C14:unknown-section", in, decodeLine(ib), want)
 		case 3: // a line far longer than the reader's buffer: read whole, the other lines undisturbed
 			g.plainIni = true
 			clean := g.genIniText(real, iniProfile{})
